@@ -6,6 +6,11 @@ use serde_json::{json, Value};
 pub fn rule_for(prop: &str) -> String {
     let world = match prop {
         "C01" | "C02" | "C03" | "C04" | "C07" | "C18" => "coarse world: whole operations serialised by the seeded scheduler (1-4 simulated threads routing calls through the original and clones), faults injected inside operations",
+        "C09" => "lifecycle world: instance population events (clone, clone of clone, drop, move to thread, verify, report, no_verify_in_drop) with seeded scheduling at clone / drop / strong-count yield points, plus self-contained operations on plain OS threads that come and go, clone storms and a mocked Termination::report",
+        "C11" => "crash world: origin x topology table of dying simulated threads, run in worker processes whose death is an observation; caught-user-panic histories; scratch mocks built and dropped during unwinding; child processes with a standard error that rejects writes",
+        "C13" => "lending world: 1-8 simulated threads borrowing one instance, every value-chain cell operation a scheduling decision; long chains and deep structures in child processes with small stacks",
+        "C15" | "C16" => "coarse world with direct-call twins; executor world (seeded poll order, cancellation) for the async methods; deep-recursion runs",
+        "C20" => "script world: seeded I/O scripts driven through the upstream provided methods of the mirrored traits, on the mock and on a plain struct",
         "C10" | "C08" | "C12" => "fine world: every instrumented atomic operation / lock acquisition / once-cell operation / clone / drop of unimock is a seeded scheduling decision",
         _ => "seeded simulation",
     };
@@ -21,7 +26,9 @@ pub fn components(prop: &str) -> Value {
             "unimock runtime (eval, counters, teardown, value chain, builder API) compiled from /repo's working tree with --cfg unimock_verif",
             "#[unimock] macro output for the corpus traits (expanded at harness build time)",
             "std::sync::Mutex / once_cell / Arc inside unimock",
-            "real OS threads, real unwinding, real catch_unwind, real ThreadId and thread::panicking()"
+            "real OS threads, real unwinding, real catch_unwind, real ThreadId and thread::panicking()",
+            "real process boundaries where the observation is the death of a process (child processes for crash scenarios, long chains, deep recursion; a real /dev/full as standard error in the stderr fault)",
+            "the harness is compiled like a test build: debug assertions and overflow checks on"
         ],
         "stubs": [
             "thread scheduling decisions (seeded scheduler; exactly one simulated thread runs at a time)",
